@@ -177,6 +177,7 @@ func OracleC04(c *Case, r *Result) []Finding {
 	if bad := r.OutOfStep(); len(bad) > 0 {
 		out = append(out, Finding{"out-of-step", strings.Join(bad, "; ")})
 	}
+	out = append(out, r.Misattributed()...)
 	// the dial prefix: nothing is written before the greeting was read; nothing at all after a greeting other than 220
 	for _, op := range r.Ops {
 		if op.Kind == 'R' && len(op.Data) > 0 {
@@ -482,4 +483,70 @@ func OracleC20(c *Case, r *Result) []Finding {
 		}
 	}
 	return out
+}
+
+// replyMessage is the message of a formatted reply as net/textproto joins it: the text of every line without
+// "ddd-" / "ddd ", separated by "\n".
+func replyMessage(formatted string) string {
+	var l []string
+	for _, line := range strings.Split(strings.TrimSuffix(formatted, "\r\n"), "\r\n") {
+		if len(line) >= 4 {
+			l = append(l, line[4:])
+		} else {
+			l = append(l, "")
+		}
+	}
+	return strings.Join(l, "\n")
+}
+
+// Misattributed compares the client's own view of the dialogue (debug log: every command and the reply the client
+// parsed for it) with the server's: the k-th command the client sent must be the k-th command the server
+// received, and the reply the client attributes to it must be - code and complete message, all lines - the reply
+// the server gave to exactly that command.  A continuation line (or any left-over) taken for the reply to the
+// next command shows up here, also inside TLS.
+func (r *Result) Misattributed() []Finding {
+	if !r.HasLog {
+		return nil
+	}
+	var cmds []smtpx.Event
+	for _, e := range r.Trace {
+		if e.Verb != "GREETING" && e.Verb != "EOD" && e.Verb != "EOD-MISSING" {
+			cmds = append(cmds, e)
+		}
+	}
+	k := 0
+	var cur *smtpx.Event
+	sent := ""
+	for _, le := range r.Log {
+		if le.ToServer {
+			sent, cur = le.Text, nil
+			if k < len(cmds) {
+				cur = &cmds[k]
+				k++
+				if cur.Line != sent {
+					return []Finding{{"reply-misattributed", fmt.Sprintf("command %d: the client sent %q, the server received %q as a command", k, sent, cur.Line)}}
+				}
+			}
+			continue
+		}
+		if sent == "" {
+			continue // the greeting is not logged as a reply to a command
+		}
+		switch {
+		case cur == nil:
+			if le.Code != 0 {
+				return []Finding{{"reply-misattributed", fmt.Sprintf("%q never reached the server as a command, but the client took \"%d %s\" for its reply", sent, le.Code, le.Msg)}}
+			}
+		case cur.Code == 0:
+			if le.Code != 0 {
+				return []Finding{{"reply-misattributed", fmt.Sprintf("%q was not answered (connection dropped), but the client took \"%d %s\" for its reply", sent, le.Code, le.Msg)}}
+			}
+		default:
+			if le.Code != cur.Code || le.Msg != replyMessage(cur.Reply) {
+				return []Finding{{"reply-misattributed", fmt.Sprintf("%q was answered %q, the client took \"%d %s\" for its reply", sent, strings.TrimSpace(cur.Reply), le.Code, le.Msg)}}
+			}
+		}
+		sent = ""
+	}
+	return nil
 }
